@@ -339,6 +339,9 @@ class KeyedSet(Generic[ItemType, KeyType], MutableSet, KeyedBase):  # pylint: di
         # Check whether item_or_key exists as a value
         try:
             key = self.key(item_or_key)
+        except Exception:  # pylint: disable=broad-except
+            return False  # Not an item the key function understands (e.g. a bare key).
+        try:
             if key in self._dict:
                 return (
                     not self.enforce_item_equivalence
@@ -378,6 +381,9 @@ class KeyedSet(Generic[ItemType, KeyType], MutableSet, KeyedBase):  # pylint: di
         # Attempt to discard value as a value
         try:
             key = self.key(value)
+        except Exception:  # pylint: disable=broad-except
+            return  # Not an item the key function understands (e.g. a bare key).
+        try:
             if key in self._dict and (
                 not self.enforce_item_equivalence
                 or self.enforce_item_equivalence
@@ -422,7 +428,13 @@ class KeyedSet(Generic[ItemType, KeyType], MutableSet, KeyedBase):  # pylint: di
                 return self._dict[key]
         except TypeError:  # e.g. an unhashable item; fall through to its key
             pass
-        item_key = self.key(key)
-        if item_key in self._dict:
-            return self._dict[item_key]
+        try:
+            item_key = self.key(key)
+        except Exception:  # pylint: disable=broad-except
+            raise KeyError(key) from None  # Neither a key nor an item.
+        try:
+            if item_key in self._dict:
+                return self._dict[item_key]
+        except TypeError:
+            pass
         raise KeyError(key)
